@@ -28,6 +28,7 @@ type Note struct {
 // Exec is one worker's interpreter state.
 type Exec struct {
 	P       *Program
+	sched   *Sched
 	sol     *Solver
 	job     *Job
 	globals map[*ssa.Global]*Cell
@@ -45,6 +46,7 @@ type Exec struct {
 	ntmp     int
 	named    map[string]string
 	known    map[string]uint64
+	notEq    map[string]map[uint64]bool
 	nlazy    int
 	roots    []*Lazy
 	tape     []TapeEntry
@@ -197,7 +199,7 @@ func (x *Exec) decide(term string) bool {
 			d = true
 		default:
 			alt := append(append([]bool{}, x.decs...), false)
-			x.pending = append(x.pending, alt)
+			x.sched.push(x.job, alt)
 			d = true
 		}
 	}
@@ -219,8 +221,17 @@ func (x *Exec) truth(b Bool) bool {
 		return b.C
 	}
 	d := x.decide(b.T)
-	if d && b.EqVar != "" {
-		x.known[b.EqVar] = b.EqC
+	if b.EqVar != "" {
+		if d {
+			x.known[b.EqVar] = b.EqC
+		} else {
+			s := x.notEq[b.EqVar]
+			if s == nil {
+				s = map[uint64]bool{}
+				x.notEq[b.EqVar] = s
+			}
+			s[b.EqC] = true
+		}
 	}
 	return d
 }
@@ -254,6 +265,12 @@ func shortFn(f *ssa.Function) string {
 // finding. The path then continues under (not term).
 func (x *Exec) mustNot(term string, kind string, id string) {
 	if term == "false" {
+		return
+	}
+	if x.pos < len(x.prefix) && term != "true" {
+		// still replaying the decision prefix: this obligation was already
+		// discharged on the path this prefix was forked from
+		x.sol.send("(assert (not " + term + "))\n")
 		return
 	}
 	x.job.obligations.Add(1)
